@@ -415,7 +415,10 @@ def ternaries(tier, seed):
 
 def jobs_C02(tier, seed):
     jobs = []
-    for name, spec, n, T, V in systems(tier, seed):
+    # cross-association (two self-associating components, iterative site-fraction solver) and an asymmetric 3B scheme
+    extra = [('pcsaft_xassoc', {'kind': 'pcsaft', 'src': src((P + 'rehner2020.json', ['water_4C', 'methanol']))}, 2, 350.0, 1000.0),
+             ('pcsaft_assoc3b', {'kind': 'pcsaft', 'src': src((P + 'gross2001.json', ['hexane']), (P + 'rehner2020.json', ['water_3B']))}, 2, 350.0, 1000.0)]
+    for name, spec, n, T, V in systems(tier, seed) + extra:
         jobs.append(('ext/' + name, {'job': 'ext', 'model': spec, 'x': state(n, T, V, seed)}, {'budget_s': 300 if tier == 'quick' else 1800, 'soft': name.endswith('~')}))
     return jobs
 
@@ -569,7 +572,11 @@ def jobs_C10(tier, seed):
 
 def jobs_C01(tier, seed):
     jobs = []
-    for name, spec, n, T, V in systems(tier, seed):
+    # cross-association: the site fractions come from an f64 Newton iteration (through .re()) and the derivatives are restored
+    # by implicit differentiation (NDERIV Newton steps in dual numbers): the traces differ by construction, the native
+    # finite-difference confirmation decides
+    extra = [('pcsaft_xassoc', {'kind': 'pcsaft', 'src': src((P + 'rehner2020.json', ['water_4C', 'methanol']))}, 2, 350.0, 1000.0)]
+    for name, spec, n, T, V in systems(tier, seed) + extra:
         x = state(n, T, V, seed)
         x2 = state(n, T * 1.13, V * 0.91, seed + 17)
         jobs.append(('twowit/' + name, {'job': 'twowit', 'model': spec, 'x': x, 'x2': x2}, {'scale': False, 'budget_s': 300, 'soft': name.endswith('~')}))
